@@ -43,7 +43,7 @@ Forms == <<"I", "S", "C", "T">>
 AllSubsets == (SUBSET {"I", "S", "C", "T"}) \ {{}}
 SixSubsets == {{"I"}, {"S"}, {"C"}, {"T"}, {"I", "T"}, {"I", "S", "C", "T"}}
 NatSets == CASE NatFam = "all15" -> AllSubsets [] NatFam = "six" -> SixSubsets [] NatFam = "four" -> {{"I"}, {"S"}, {"C"}, {"T"}}
-Names == <<"a", "b", "c">>
+Names == <<"a", "b", "c", "d", "e", "f">>
 \* every split of "abc" into 1-3 chunks, empty chunks included
 In1 == {<<"abc">>}
 In2 == {<<"", "abc">>, <<"a", "bc">>, <<"ab", "c">>, <<"abc", "">>}
@@ -68,8 +68,15 @@ OutKey(cfg, i) == IF cfg.dup THEN "k" ELSE cfg.nodes[i].n
 Prog(cfg) ==
   LET N == cfg.nodes IN
   CASE cfg.shape \in {"chain", "nested"} -> UnitsOf(cfg, N)
-    [] cfg.shape = "fan2" -> <<[op |-> "par", l |-> NodeUnits(cfg, N[1]), r |-> NodeUnits(cfg, N[2]), kl |-> OutKey(cfg, 1), kr |-> OutKey(cfg, 2)]>>
-    [] cfg.shape = "fan3" -> NodeUnits(cfg, N[1]) \o <<[op |-> "par", l |-> NodeUnits(cfg, N[2]), r |-> NodeUnits(cfg, N[3]), kl |-> OutKey(cfg, 2), kr |-> OutKey(cfg, 3)]>>
+    [] cfg.shape = "fan2" -> <<[op |-> "par", bs |-> [i \in 1..2 |-> [us |-> NodeUnits(cfg, N[i]), k |-> OutKey(cfg, i)]]]>>
+    [] cfg.shape = "fan3" -> NodeUnits(cfg, N[1]) \o <<[op |-> "par", bs |-> [i \in 1..2 |-> [us |-> NodeUnits(cfg, N[i + 1]), k |-> OutKey(cfg, i + 1)]]]>>
+    \* wide fan-in: k = 4..6 parallel nodes, each its own keyed stream, merged at END (schema.MergeStreamReaders switches from the
+    \* static select to reflect.Select above five sources)
+    [] cfg.shape = "fank" -> <<[op |-> "par", bs |-> [i \in 1..Len(N) |-> [us |-> NodeUnits(cfg, N[i]), k |-> OutKey(cfg, i)]]]>>
+    \* workflow with field mappings that need a run-time check: producer a : string -> map[string]any {x: input, y: marker},
+    \* MapFields(x -> X), MapFields(y -> Y) into consumer b : map[string]string -> string (X ++ Y ++ marker)
+    [] cfg.shape = "fmap" -> <<[op |-> "mapsrc", u |-> Unit(N[1].n, Range(N[1].nat), N[1].oc, FailOf(cfg, N[1].n))], [op |-> "fieldmap"],
+                               [op |-> "join", u |-> Unit(N[2].n, Range(N[2].nat), N[2].oc, FailOf(cfg, N[2].n))]>>
     [] cfg.shape = "branch" -> NodeUnits(cfg, N[1]) \o <<[op |-> "branch"]>> \o NodeUnits(cfg, NodeByName(cfg, cfg.pick))
     [] cfg.shape = "keys" -> IF Len(N) = 1 THEN <<[op |-> "inkey", k |-> "x"]>> \o NodeUnits(cfg, N[1]) \o <<[op |-> "outkey", k |-> "out"]>>
                              ELSE <<[op |-> "inkey", k |-> "x"]>> \o NodeUnits(cfg, N[1]) \o <<[op |-> "outkey", k |-> "mid"], [op |-> "inkey", k |-> "mid"]>>
@@ -111,6 +118,28 @@ UnitTransform(u, ss) ==
     [] via = "I" -> <<NatI(u, Cat(ss))>>              \* transformByInvoke: concat, then box
 FormUsed(u, stream) == IF stream THEN First(<<"T", "S", "C", "I">>, u.nat) ELSE First(<<"I", "S", "C", "T">>, u.nat)
 
+Low(K) == IF K = "X" THEN "x" ELSE "y"
+Rename(c) == [K \in {K \in {"X", "Y"} : Low(K) \in DOMAIN c} |-> c[Low(K)]]
+(* producer string -> map {x: input, y: marker}: one key per chunk in its stream forms *)
+MNatI(u, s) == ("x" :> s) @@ ("y" :> u.n)
+MNatS(u, s) == CASE u.oc = 1 -> <<MNatI(u, s)>> [] u.oc = 2 -> <<("x" :> s), ("y" :> u.n)>> [] u.oc = 3 -> <<("x" :> s), ("y" :> ""), ("y" :> u.n)>>
+MNatT(u, ss) == [i \in 1..Len(ss) |-> ("x" :> ss[i])] \o (CASE u.oc = 1 -> <<("y" :> u.n)>> [] u.oc = 2 -> <<("y" :> ""), ("y" :> u.n)>> [] u.oc = 3 -> <<("y" :> u.n), ("x" :> "")>>)
+MapInvoke(u, s) ==
+  LET via == First(<<"I", "S", "C", "T">>, u.nat) IN
+  CASE via = "I" -> MNatI(u, s) [] via = "S" -> ConcatChunks(MNatS(u, s)) [] via = "C" -> MNatI(u, Cat(<<s>>)) [] via = "T" -> ConcatChunks(MNatT(u, <<s>>))
+MapTransform(u, ss) ==
+  LET via == First(<<"T", "S", "C", "I">>, u.nat) IN
+  CASE via = "T" -> MNatT(u, ss) [] via = "S" -> MNatS(u, Cat(ss)) [] via = "C" -> <<MNatI(u, Cat(ss))>> [] via = "I" -> <<MNatI(u, Cat(ss))>>
+(* consumer map {X, Y} -> string X ++ Y ++ marker; its stream forms buffer the map chunks (X and Y chunks interleave) *)
+XY(m) == (IF "X" \in DOMAIN m THEN m["X"] ELSE "") \o (IF "Y" \in DOMAIN m THEN m["Y"] ELSE "")
+JoinInvoke(u, m) ==
+  LET via == First(<<"I", "S", "C", "T">>, u.nat) IN
+  CASE via \in {"I", "C"} -> XY(m) \o u.n [] via = "S" -> Cat(SplitOut(u, XY(m))) [] via = "T" -> Cat(<<XY(m)>> \o TailOut(u))
+JoinTransform(u, cs) ==
+  LET via == First(<<"T", "S", "C", "I">>, u.nat)
+      m == ConcatChunks(cs)
+  IN CASE via = "T" -> <<XY(m)>> \o TailOut(u) [] via = "S" -> SplitOut(u, XY(m)) [] via \in {"C", "I"} -> <<XY(m) \o u.n>>
+
 RECURSIVE RunUnitsV(_, _)
 RunUnitsV(us, s) == IF Len(us) = 0 THEN [ok |-> TRUE, s |-> s]
                     ELSE IF us[1].fail # "" THEN [ok |-> FALSE, why |-> "node-failure"]
@@ -128,11 +157,15 @@ StepV(e, x, Fx) ==
          [] e.op = "inkey" -> IF e.k \in DOMAIN x.m THEN ValOK(Bare(x.m[e.k])) ELSE ValFail("cannot find input key")
          [] e.op = "outkey" -> ValOK((e.k :> x.m[""]))
          [] e.op = "par" ->
-              LET l == RunUnitsV(e.l, x.m[""])
-                  r == RunUnitsV(e.r, x.m[""])
-              IN IF ~l.ok \/ ~r.ok THEN ValFail("node-failure")
-                 ELSE IF e.kl = e.kr THEN ValFail("duplicated key")    \* mergeMap
-                 ELSE ValOK((e.kl :> l.s) @@ (e.kr :> r.s))
+              LET B == 1..Len(e.bs)
+                  r == [i \in B |-> RunUnitsV(e.bs[i].us, x.m[""])]
+              IN IF \E i \in B : ~r[i].ok THEN ValFail("node-failure")
+                 ELSE IF \E i, j \in B : i # j /\ e.bs[i].k = e.bs[j].k THEN ValFail("duplicated key")    \* mergeMap
+                 ELSE ValOK([key \in {e.bs[i].k : i \in B} |-> r[CHOOSE i \in B : e.bs[i].k = key].s])
+         [] e.op = "mapsrc" -> IF e.u.fail # "" THEN ValFail("node-failure") ELSE ValOK(MapInvoke(e.u, x.m[""]))
+         \* fieldMap in value form: every mapped key must be there; the run-time checker looks at the keys present
+         [] e.op = "fieldmap" -> IF {"x", "y"} \subseteq DOMAIN x.m THEN ValOK(("X" :> x.m["x"]) @@ ("Y" :> x.m["y"])) ELSE ValFail("key not found")
+         [] e.op = "join" -> IF e.u.fail # "" THEN ValFail("node-failure") ELSE ValOK(Bare(JoinInvoke(e.u, x.m)))
 (* one program element in stream mode *)
 Strs(cs) == [i \in 1..Len(cs) |-> cs[i][""]]
 Wrap(k, ss) == [i \in 1..Len(ss) |-> (k :> ss[i])]
@@ -144,13 +177,19 @@ StepS(e, x, Fx) ==
                               IN StrOK([i \in 1..Len(sel) |-> Bare(sel[i][e.k])])
          [] e.op = "outkey" -> StrOK(Wrap(e.k, Strs(x.cs)))                                   \* withKey on every chunk
          [] e.op = "par" ->
-              LET l == RunUnitsS(e.l, Strs(x.cs))                                             \* both read a copy of the stream
-                  r == RunUnitsS(e.r, Strs(x.cs))
-              IN IF ~l.ok \/ ~r.ok THEN StrFail("node-failure")
-                 ELSE IF e.kl = e.kr /\ "D13" \in Fx THEN StrFail("duplicated key")
-                 \* as coded: the two keyed streams are merged (one interleaving shown); a duplicate key goes unnoticed and the
-                 \* consumer's concatenation joins the two values
-                 ELSE StrOK(Wrap(e.kl, l.ss) \o Wrap(e.kr, r.ss))
+              LET B == 1..Len(e.bs)
+                  r == [i \in B |-> RunUnitsS(e.bs[i].us, Strs(x.cs))]                         \* every branch reads a copy of the stream
+              IN IF \E i \in B : ~r[i].ok THEN StrFail("node-failure")
+                 ELSE IF "D13" \in Fx /\ \E i, j \in B : i # j /\ e.bs[i].k = e.bs[j].k THEN StrFail("duplicated key")
+                 \* as coded: the keyed streams are merged (one interleaving shown; the merge itself - static select up to five
+                 \* sources, reflect.Select above - is Streams.tla's business, here every source is drained); a duplicate key goes
+                 \* unnoticed and the consumer's concatenation joins the values
+                 ELSE StrOK(FlattenSeq([i \in B |-> Wrap(e.bs[i].k, r[i].ss)]))
+         [] e.op = "mapsrc" -> IF e.u.fail # "" THEN StrFail("node-failure") ELSE StrOK(MapTransform(e.u, Strs(x.cs)))
+         \* fieldMap in stream form, chunk by chunk: a mapped key that is absent from THIS chunk is skipped (it arrives in another
+         \* chunk), the run-time checker and the converter see the keys present in the chunk
+         [] e.op = "fieldmap" -> StrOK([i \in 1..Len(x.cs) |-> Rename(x.cs[i])])
+         [] e.op = "join" -> IF e.u.fail # "" THEN StrFail("node-failure") ELSE StrOK(Wrap("", JoinTransform(e.u, x.cs)))
 
 ----------------------------------------------------------------------------
 (* Generator + lock-step run *)
@@ -159,7 +198,7 @@ vars == <<cfg, phase, pos, acc>>
 
 NoFail == [n |-> "", how |-> ""]
 EmptyCfg == [shape |-> "", nodes |-> <<>>, in |-> <<>>, dup |-> FALSE, pick |-> "", bstrm |-> FALSE, z |-> FALSE, fail |-> NoFail, anyout |-> FALSE]
-NodesWanted(sh) == CASE sh = "chain" -> 1..MaxNodes [] sh = "nested" -> 2..MaxNodes [] sh = "fan2" -> {2} [] sh = "fan3" -> {3}
+NodesWanted(sh) == CASE sh = "fank" -> 4..MaxNodes [] sh = "fmap" -> {2} [] sh = "chain" -> 1..MaxNodes [] sh = "nested" -> 2..MaxNodes [] sh = "fan2" -> {2} [] sh = "fan3" -> {3}
                      [] sh = "branch" -> {3} [] sh = "keys" -> 1..(IF MaxNodes > 2 THEN 2 ELSE MaxNodes)
 HandlerOK(sh) == sh \in {"chain"}
 Init == cfg = EmptyCfg /\ phase = "shape" /\ pos = 0 /\ acc = <<>>
@@ -169,6 +208,12 @@ AddNode(nat, oc, pre, post) ==
   /\ phase = "nodes" /\ Len(cfg.nodes) < MaxNodes /\ (Len(cfg.nodes) + 1) \in 1..(CHOOSE m \in NodesWanted(cfg.shape) : \A k \in NodesWanted(cfg.shape) : k <= m)
   /\ (UsesOC(nat) \/ oc = 1)                                        \* the chunking only matters for stream-producing forms
   /\ (HandlerOK(cfg.shape) \/ (pre = "none" /\ post = "none"))
+  \* wide fan-in: mixed native forms, the first node picks one, the following ones take the next form in the cycle I, S, C, T
+  /\ (cfg.shape = "fank" /\ Len(cfg.nodes) > 0 =>
+        LET prev == cfg.nodes[Len(cfg.nodes)].nat[1]
+            idx == CHOOSE i \in 1..4 : Forms[i] = prev
+        IN Cardinality(nat) = 1 /\ nat = {Forms[(idx % 4) + 1]})
+  /\ (cfg.shape = "fank" => Cardinality(nat) = 1)
   /\ cfg' = [cfg EXCEPT !.nodes = Append(@, [n |-> Names[Len(cfg.nodes) + 1], nat |-> SetToSeq(nat), oc |-> oc, pre |-> pre, post |-> post])]
   /\ UNCHANGED <<phase, pos, acc>>
 Executed(c) == IF c.shape = "branch" THEN {"a", c.pick} ELSE {c.nodes[i].n : i \in 1..Len(c.nodes)}
@@ -214,7 +259,9 @@ Predicted == Judge(cfg, ModelRes)
 LawHolds == phase = "done" => (Predicted = {} \/ (cfg.dup /\ Predicted = {"failure-not-in-every-paradigm"}))
 \* which native form serves each unit in value mode and in stream mode (conformance of the derivation table itself)
 RECURSIVE FlatUnits(_)
-FlatUnits(p) == IF Len(p) = 0 THEN <<>> ELSE (IF p[1].op = "unit" THEN <<p[1]>> ELSE IF p[1].op = "par" THEN p[1].l \o p[1].r ELSE <<>>) \o FlatUnits(Tail(p))
+FlatUnits(p) == IF Len(p) = 0 THEN <<>>
+                ELSE (IF p[1].op = "unit" THEN <<p[1]>> ELSE IF p[1].op = "par" THEN FlattenSeq([i \in 1..Len(p[1].bs) |-> p[1].bs[i].us])
+                      ELSE IF p[1].op \in {"mapsrc", "join"} THEN <<p[1].u>> ELSE <<>>) \o FlatUnits(Tail(p))
 FormsOf(stream) == LET us == SelectSeq(FlatUnits(Prog(cfg)), LAMBDA u : u.n \notin {"(", ")"}) IN [i \in 1..Len(us) |-> us[i].n \o ":" \o FormUsed(us[i], stream)]
 Emit == phase = "done" =>
   PrintT(<<"CASE", ToJson([shape |-> cfg.shape, nodes |-> cfg.nodes, in |-> cfg.in, dup |-> cfg.dup, pick |-> cfg.pick, bstrm |-> cfg.bstrm,
